@@ -14,6 +14,9 @@ import time
 import traceback
 
 HOME = os.environ.get("VERIF_HOME", os.path.dirname(os.path.dirname(os.path.abspath(__file__))))
+# where evidence/ and replays/ are written: /verif itself, except when a scratch tree is checked
+OUT = os.environ.get("VERIF_OUT") or (HOME if os.environ.get("VERIF_REPO", "/repo") == "/repo"
+                                      else os.path.join(os.environ["VERIF_REPO"], ".verif_out"))
 
 
 def jdump(o):
@@ -130,7 +133,7 @@ def _root(e):
 
 
 def write_replay(pid, case, viol, seed, tier):
-    d = os.path.join(HOME, "replays", pid)
+    d = os.path.join(OUT, "replays", pid)
     os.makedirs(d, exist_ok=True)
     body = {"property": pid, "oracle": viol["oracle"], "key": viol["key"],
             "case": case, "seed": seed, "tier": tier, "detail": viol.get("detail", ""),
@@ -318,8 +321,8 @@ def main(argv=None):
         "wall_s": round(wall, 2),
         "violations": len(new),
     }
-    os.makedirs(os.path.join(HOME, "evidence"), exist_ok=True)
-    evp = os.path.join(HOME, "evidence", pid + ".json")
+    os.makedirs(os.path.join(OUT, "evidence"), exist_ok=True)
+    evp = os.path.join(OUT, "evidence", pid + ".json")
     with open(evp, "w") as f:
         json.dump(ev, f, indent=1, sort_keys=True)
     ok = validate_evidence(evp)
